@@ -39,11 +39,11 @@ PROP = {
     "rule": "one case = schema + committed initial rows + a multi-session history (as engine hist: sessions stepped from one thread) "
             "with VACUUM (bare or checked by all-table SELECTs before/after) and reopen at arbitrary places, any number of times, "
             "followed by reads from fresh autocommit statements, a session opened after the last VACUUM (reads twice, writes, "
-            "commits or rolls back) and probe INSERT/UPDATE/DELETE. Families: 260 random histories (1-3 sessions + autocommit "
-            "statements + 1-3 VACUUM/reopen, randomly interleaved), 220 targeted ones (rolled-back DELETE / INSERT / UPDATE, "
+            "commits or rolls back) and probe INSERT/UPDATE/DELETE. Families: 900 random histories (1-3 sessions + autocommit "
+            "statements + 1-3 VACUUM/reopen, randomly interleaved), 800 targeted ones (rolled-back DELETE / INSERT / UPDATE, "
             "committed DELETE and reinsertion, chains of committed UPDATEs, transactions below the horizon open at VACUUM time, "
             "readers open across it, empty tables and double VACUUM, two tables, DROP TABLE, many finished transactions + reopen, "
-            "failing statements), 10 growth cases (12-20 update/VACUUM cycles on 1-300 rows, with reopen); thorough = 10x, "
+            "failing statements), 24 growth cases (12-20 update/VACUUM cycles on 1-250 rows, with reopen) + one of 260 cycles; thorough = 10x, "
             "cycles up to 60. Non-trivial (`nt`) = the history contains a rolled-back write (ROLLBACK, session drop, "
             "transaction cut off by VACUUM/reopen) or a superseded version (committed UPDATE or DELETE) before some VACUUM; "
             "every growth case is non-trivial; distinct = distinct case line. Tags `clean` / `kf:<feature>` give the split.",
@@ -70,7 +70,7 @@ TEXT = {
             "deleters, deltas below the horizon, forget old transactions) produces exactly the outputs of the abstract snapshot-isolation "
             "machine in which VACUUM only ends the open transactions — hence the same outputs as the history with every VACUUM replaced by "
             "'abort everything'; every dropped version or row is selected by no snapshot that can exist afterwards; VACUUM is idempotent on "
-            "observations; repeated update/VACUUM cycles keep exactly one version per row. Tied to the code by ~490 (quick) / ~4 900 "
+            "observations; repeated update/VACUUM cycles keep exactly one version per row. Tied to the code by ~1 700 (quick) / ~17 000 "
             "(thorough) generated histories through the public API, incl. all-table SELECTs before/after every checked VACUUM and file "
             "size over update/VACUUM cycles.",
     "design_ref": "DESIGN.md §5 C13",
